@@ -1,6 +1,6 @@
 SPECIFICATION Spec
 CONSTANTS
-  MaxSteps = 7
+  MaxSteps = 6
   MaxCycles = 3
   ExportScripts = FALSE
   EnableFaults = TRUE
